@@ -271,6 +271,8 @@ def histPersist : List Op :=
    .line "255;255;3;0;3;\n".toList, .stop, .restart]
 
 example : quiet (newGW .v22 .mqtt true) histPersist = true := by decide +kernel
+example : akeys (run (newGW .v22 .mqtt true) (histPersist.take 3)).persisted = [1, 2] := by decide +kernel
+example : akeys (run (newGW .v22 .mqtt true) (histPersist.take 4)).persisted = [1] := by decide +kernel
 example : akeys (run (newGW .v22 .mqtt true) histPersist).persisted = [1, 2] := by decide +kernel
 example : akeys (specRun .v22 true ⟨[], none⟩ histPersist).tree = [1, 2] := by decide +kernel
 
